@@ -357,6 +357,54 @@ func genBigFile(r *hlib.Rng, n int) []byte {
 	return []byte(sb.String())
 }
 
+// genRaceBatchFile: one hot key holding several hundred distinct values spread over the
+// whole file, so that with small batches almost every pair of concurrent ExecuteBatch calls
+// reads and rewrites the same stored value (a read-modify-write that is not serialised loses
+// values).
+func genRaceBatchFile(r *hlib.Rng) []byte {
+	var sb strings.Builder
+	for i := 0; i < 240; i++ {
+		if i%4 == 3 {
+			fmt.Fprintf(&sb, "+h%d.example.com,192.0.2.%d\n", i, r.Intn(256))
+		} else {
+			fmt.Fprintf(&sb, "+hot.example.com,10.%d.%d.%d\n", i/256, i%256, r.Intn(256))
+		}
+	}
+	return []byte(sb.String())
+}
+
+// genRacePrefixFile: about 2000 subnet lines, a dense run of IPv4 /24 and IPv6 /48 subnets with
+// one subnet of every other prefix length spread through it: the prefix set records of the CDB
+// ("\000/", "\0004", "\0006") must hold every length, also those that occur once.
+func genRacePrefixFile(r *hlib.Rng) []byte {
+	var lines []string
+	for i := 0; i < 1850; i++ {
+		if i%3 == 2 {
+			lines = append(lines, fmt.Sprintf("%%ab,2001:db8:%x::/48,ec", i))
+		} else {
+			lines = append(lines, fmt.Sprintf("%%ab,10.%d.%d.0/24,ec", i/256, i%256))
+		}
+	}
+	var once []string
+	for n := 1; n <= 32; n++ {
+		if n != 24 {
+			once = append(once, fmt.Sprintf("%%zz,129.129.129.129/%d,m1", n))
+		}
+	}
+	for n := 1; n <= 95; n++ {
+		if n != 48 {
+			once = append(once, fmt.Sprintf("%%zz,2a01:4f8:ffff:ffff:ffff:ffff::/%d,m2", n))
+		}
+	}
+	// spread the single ones through the dense block
+	for _, l := range once {
+		pos := 20 + r.Intn(len(lines)-40)
+		lines = append(lines[:pos], append([]string{l}, lines[pos:]...)...)
+	}
+	lines = append([]string{"Zexample.com,ns1.example.com,adm.example.com,1", "&example.com,192.0.2.1,ns1.example.com", "+www.example.com,192.0.2.2"}, lines...)
+	return complib.Join(lines, true)
+}
+
 func genBuckets(r *hlib.Rng) *bucketCase {
 	n := r.Intn(41)
 	if r.Chance(1, 20) {
@@ -642,6 +690,38 @@ func run(a *hlib.Args, e *hlib.Emitter) error {
 		}
 	}
 
+	// schedule dependent defects: the same settings several times, compared here only
+	if a.N > 0 {
+		rr := hlib.NewRng(a.Seed, 4)
+		var bsets []setting
+		for _, x := range [][2]int{{2, 16}, {2, 8}, {1, 16}, {2, 16}, {4, 16}, {3, 8}} {
+			bsets = append(bsets, setting{"batches", 16, x[0], x[1]})
+		}
+		reps := 1
+		if thorough {
+			reps = 5
+		}
+		for k := 0; k < reps; k++ {
+			c, err := runCompileCase(a.Scratch, "race-batch", []string{"v1", "v2"}[k%2], genRaceBatchFile(rr), bsets, false, ncpu)
+			if err != nil {
+				return err
+			}
+			e.Emit(c)
+		}
+		var csets []setting
+		n := 80
+		if thorough {
+			n = 600
+		}
+		for i := 0; i < n; i++ {
+			csets = append(csets, setting{"cdb", []int{8, 16, 4, 16}[i%4], 0, 0})
+		}
+		c, err := runCompileCase(a.Scratch, "race-cdb", "cdb", genRacePrefixFile(rr), csets, false, ncpu)
+		if err != nil {
+			return err
+		}
+		e.Emit(c)
+	}
 	return nil
 }
 
